@@ -270,6 +270,7 @@ def run(chk, facts_by_config):
             if o.get('bitlevel') and o['ok'] is None and 'lemma_failed' in o:
                 if not any(u.startswith(tyname + ': ') for u in chk.undecided):
                     chk.undecided.append('%s: bit-level mode not applicable (%s)' % (tyname, o['detail']))
+                proved.setdefault(cfgname, set()).add(tyname)     # counted for the floor: the anchor vanished, the type did not
                 continue
             if o['ok']:
                 chk.ok('roundtrip-identity', key, dict(type=tyname, order='%s then %s' % (o['first'], 'dec' if o['first'] == 'enc' else 'enc'),
